@@ -25,6 +25,69 @@ func C16(c *core.Ctx) {
 	c16Requirements(c)
 	c16Replicate(c)
 	c16Sharing(c)
+	c16CLI(c)
+}
+
+// c16CLI: the command-line / bulk wrappers hand back the envelope that
+// Envelope.Correct / Replicate produced, validated, never the parsed source.
+func c16CLI(c *core.Ctx) {
+	p := c.P
+	c.Rule("C16-R6", "CLI/bulk correct and replicate return the new envelope, validated", 2)
+	for _, name := range []string{"correct", "replicate"} {
+		fd := p.Func("internal/cli", "", name)
+		if fd == nil {
+			c.Ob("C16-R6", "UNRESOLVED:cli."+name, token.NoPos, false, "function not found")
+			continue
+		}
+		info := fd.Pkg.TypesInfo
+		ff := core.NewFuncFlow(fd)
+		method := strings.ToUpper(name[:1]) + name[1:]
+		calls := core.CallsTo(info, fd.Decl.Body, func(f *types.Func) bool {
+			return f.Name() == method && core.RecvNamed(f) != nil && core.RecvNamed(f).Obj().Name() == "Envelope"
+		})
+		if len(calls) != 1 {
+			c.Ob("C16-R6", fd.Name()+"#envelope-path", fd.Decl.Pos(), false, fmt.Sprintf("expected one call of Envelope.%s, found %d", method, len(calls)))
+			continue
+		}
+		call := calls[0]
+		src := core.VarOf(info, core.RecvExpr(call))
+		var res *types.Var
+		ast.Inspect(fd.Decl.Body, func(n ast.Node) bool {
+			if as, ok := n.(*ast.AssignStmt); ok && len(as.Rhs) == 1 && ast.Unparen(as.Rhs[0]) == ast.Expr(call) {
+				res = core.VarOf(info, as.Lhs[0])
+			}
+			return true
+		})
+		// every success return reachable after the call returns res, validated without error
+		ok, n := res != nil, 0
+		why := "the result of the envelope operation is not kept"
+		for _, r := range ff.Flow.Returns() {
+			if !ff.Flow.Reachable(r) || len(r.Results) != 2 || !ff.Flow.PassedAt(r)[call] {
+				continue
+			}
+			if k, _ := ff.ClassifyReturn(p, r); k != core.RetSuccess {
+				continue
+			}
+			n++
+			rv := core.VarOf(info, r.Results[0])
+			if rv != res || rv == src {
+				ok, why = false, "a success return after the envelope operation returns something other than the new envelope (e.g. the parsed source)"
+			}
+			validated := false
+			for pc := range ff.Flow.PassedAt(r) {
+				if f := core.Callee(info, pc); f != nil && f.Name() == "Validate" && core.VarOf(info, core.RecvExpr(pc)) == res && ff.ErrNilAt(r, pc) == 1 {
+					validated = true
+				}
+			}
+			if !validated {
+				ok, why = false, "the new envelope is returned without having been validated error-free"
+			}
+			if ff.ErrNilAt(r, call) != 1 {
+				ok, why = false, "the error of the envelope operation is not heeded"
+			}
+		}
+		c.Ob("C16-R6", fd.Name()+"#returns-new-validated-envelope", call.Pos(), ok && n > 0, why)
+	}
 }
 
 func c16Envelope(c *core.Ctx) {
